@@ -75,6 +75,7 @@ const (
 	// - UnaryExpression, except with OperationMove
 	// - IntegerExpression and FixedPointExpression, if negative
 	// - CreateExpression
+	// - FunctionExpression. must be parenthesized if it is the target of a postfix operator
 	// - ReferenceExpression
 	expressionPrecedenceUnaryPrefix
 	// expressionPrecedenceUnaryPostfix is the expressionPrecedence of
@@ -95,7 +96,6 @@ const (
 	// - ArrayExpression
 	// - DictionaryExpression
 	// - IdentifierExpression
-	// - FunctionExpression
 	// - PathExpression
 	expressionPrecedenceLiteral
 )
